@@ -566,3 +566,77 @@ impl<T: RealNumber, D: Distance<Vec<T>, T>> G<T, D> {
         }
     }
 }
+
+// ---------------------------------------------------------------------------------------------
+// Quantified forms of the step lemmas.  The proof hints of `fit` are attached at ordinal positions only (function entry,
+// start / end of a loop body), where the result of a later statement of the body (the answer of a radius search) is not
+// known yet: these wrappers state a step "for every answer".  They have no code-dependent precondition, so that a change
+// of the code shows up as a failed (labelled) invariant, not as a failed lemma precondition.
+// ---------------------------------------------------------------------------------------------
+impl<T: RealNumber, D: Distance<Vec<T>, T>> G<T, D> {
+    // before the first point is visited
+    pub proof fn lemma_init_q(self)
+        requires self.sym(), self.n() <= i16::MAX,
+        ensures
+            forall|y: Seq<i16>| (y.len() == self.n() && forall|q: int| 0 <= q < y.len() ==> #[trigger] y[q] == -3)
+                ==> #[trigger] self.inv_outer(y, 0, 0),
+    {
+        assert forall|y: Seq<i16>| (y.len() == self.n() && forall|q: int| 0 <= q < y.len() ==> #[trigger] y[q] == -3)
+            implies #[trigger] self.inv_outer(y, 0, 0) by {
+            self.lemma_init(y);
+        }
+    }
+    // point i becomes the seed of cluster k, whatever list enumerates its neighbours
+    pub proof fn lemma_seed_q(self, y: Seq<i16>, i: int, k: int)
+        requires self.inv_outer(y, i, k), i < self.n(), y[i] == -3, self.core(i),
+        ensures
+            forall|nbl: Seq<int>| #![trigger enumerates(nbl, self.nbp(i), self.n())] #![trigger self.inv_exp(y.update(i, k as i16), nbl, i, k, i, nbl, 0)]
+                enumerates(nbl, self.nbp(i), self.n()) ==> self.inv_exp(y.update(i, k as i16), nbl, i, k, i, nbl, 0),
+    {
+        assert forall|nbl: Seq<int>| enumerates(nbl, self.nbp(i), self.n()) implies self.inv_exp(y.update(i, k as i16), nbl, i, k, i, nbl, 0) by {
+            self.lemma_seed(y, i, k, nbl);
+        }
+    }
+    // the top of the stack is an undefined/queued core point: it joins cluster k, whatever list enumerates its neighbours
+    pub proof fn lemma_pop_core_q(self, y: Seq<i16>, st: Seq<int>, i: int, k: int)
+        requires self.pop_pre(y, st, i, k), y[st.last()] < 0, self.core(st.last()),
+        ensures
+            forall|sec: Seq<int>| #![trigger enumerates(sec, self.nbp(st.last()), self.n())]
+                    #![trigger self.inv_exp(y.update(st.last(), k as i16), st.drop_last(), i, k, st.last(), sec, 0)]
+                enumerates(sec, self.nbp(st.last()), self.n())
+                    ==> self.inv_exp(y.update(st.last(), k as i16), st.drop_last(), i, k, st.last(), sec, 0),
+    {
+        assert forall|sec: Seq<int>| enumerates(sec, self.nbp(st.last()), self.n())
+            implies self.inv_exp(y.update(st.last(), k as i16), st.drop_last(), i, k, st.last(), sec, 0) by {
+            self.lemma_pop_core(y, st, i, k, sec);
+        }
+    }
+    // (a) a completely scanned neighbour list is no longer pending; (b) an empty stack with nothing pending: cluster k is complete
+    pub proof fn lemma_close_q(self, i: int, k: int)
+        ensures
+            forall|y: Seq<i16>, st: Seq<int>, p: int, pl: Seq<int>, pf: int| #[trigger] self.inv_exp(y, st, i, k, p, pl, pf) && pf >= pl.len()
+                ==> self.inv_exp(y, st, i, k, -1, Seq::<int>::empty(), 0),
+            forall|y: Seq<i16>, st: Seq<int>| #[trigger] self.inv_exp(y, st, i, k, -1, Seq::<int>::empty(), 0) && st.len() == 0
+                ==> self.inv_outer(y, i + 1, k + 1),
+    {
+        assert forall|y: Seq<i16>, st: Seq<int>, p: int, pl: Seq<int>, pf: int| #[trigger] self.inv_exp(y, st, i, k, p, pl, pf) && pf >= pl.len()
+            implies self.inv_exp(y, st, i, k, -1, Seq::<int>::empty(), 0) by {
+            if p >= 0 {
+                assert(pf == pl.len()) by { reveal(G::inv_exp); }
+                self.lemma_done_pending(y, st, i, k, p, pl);
+            } else {
+                reveal(G::inv_exp);
+                assert forall|q: int, j: int| #![trigger self.nb(q, j)]
+                    0 <= q < self.n() && 0 <= j < self.n() && y[q] == k && self.core(q) && self.nb(q, j)
+                        implies settled(y, st, j) by {
+                    assert(q != p);
+                }
+            }
+        }
+        assert forall|y: Seq<i16>, st: Seq<int>| #[trigger] self.inv_exp(y, st, i, k, -1, Seq::<int>::empty(), 0) && st.len() == 0
+            implies self.inv_outer(y, i + 1, k + 1) by {
+            assert(st =~= Seq::<int>::empty());
+            self.lemma_finish(y, i, k);
+        }
+    }
+}
